@@ -124,7 +124,7 @@ def run(ctx, res):
 
     # ---- property level
     jobs = []
-    for i in range(tier_scale(tier, 260, 5000) * mult):
+    for i in range(tier_scale(tier, 700, 8000) * mult):
         use_bytes = rng.random() < 0.3
         terms, ign = gen.term_set(rng, 1, 5, ascii_only=use_bytes)
         g = gen.term_grammar(terms, ign)
